@@ -121,6 +121,21 @@ class VObj(V):
         return f"Obj<{self.cls}>{self.fields}"
 
 
+class VSymCache(V):
+    """the per-object memo of a URL that was not built in this activation: it may hold any of
+    the known keys, each with the value its lazy accessor computes from the owner's parts
+    (memo invariant, C08-O2).  `removed` keys are known absent, `extra` are explicit stores."""
+
+    def __init__(self, owner, removed=None, extra=None):
+        self.owner = owner
+        self.removed = set(removed or ())
+        self.extra = dict(extra or {})
+        self.fresh = True        # the memo is in every method's frame
+
+    def __repr__(self):
+        return f"SymCache(-{sorted(self.removed)} +{sorted(self.extra)})"
+
+
 class VConst(V):
     """an arbitrary concrete Python object (frozenset, class, module, compiled regex...)"""
 
@@ -617,3 +632,76 @@ def dec_value(ctx: Ctx, s: VStr):
     apps.append((s, v, z3.BoolVal(True)))
     memo[key] = v
     return v
+
+
+def str_lt(ctx: Ctx, x: VStr, y: VStr):
+    """x < y for strings: an opaque strict total order on string *contents* (library contract
+    of str comparison: irreflexive, asymmetric, total, transitive; equal contents compare
+    alike).  The axioms are instantiated for the strings compared on this path."""
+    if x.conc is not None and y.conc is not None:
+        return z3.BoolVal(x.conc < y.conc)
+    def key(s):
+        return ("c", s.conc) if s.conc is not None else (s.a.get_id(), z3.simplify(s.lo).get_id(), z3.simplify(s.hi).get_id())
+    memo = getattr(ctx, "memo", None)
+    if memo is None:
+        memo = ctx.memo = {}
+    k = ("lt", key(x), key(y))
+    if k in memo:
+        return memo[k]
+    apps = getattr(ctx, "lt_apps", None)
+    if apps is None:
+        apps = ctx.lt_apps = []
+    strs = getattr(ctx, "lt_strs", None)
+    if strs is None:
+        strs = ctx.lt_strs = []
+
+    def atom(a, b):
+        kk = ("lt", key(a), key(b))
+        if kk not in memo:
+            memo[kk] = fresh_bool("lt")
+        return memo[kk]
+    new = [s for s in (x, y) if not any(key(s) == key(t) for t in strs)]
+    for s in new:
+        strs.append(s)
+    # axioms over every pair / triple that involves a newly seen string
+    for a in strs:
+        for b in strs:
+            if not (any(a is n for n in new) or any(b is n for n in new)):
+                continue
+            if key(a) == key(b):
+                ctx.add(z3.Not(atom(a, b)))
+                continue
+            e = str_eq(ctx, a, b)
+            ctx.add(z3.Implies(e, z3.And(z3.Not(atom(a, b)), z3.Not(atom(b, a)))))
+            ctx.add(z3.Implies(z3.Not(e), z3.Xor(atom(a, b), atom(b, a))))
+    if len(strs) <= 8:
+        for a in strs:
+            for b in strs:
+                for c in strs:
+                    if len({key(a), key(b), key(c)}) == 3 and (any(a is n or b is n or c is n for n in new)):
+                        ctx.add(z3.Implies(z3.And(atom(a, b), atom(b, c)), atom(a, c)))
+                        ctx.add(z3.Implies(str_eq(ctx, a, b), atom(a, c) == atom(b, c)))
+                        ctx.add(z3.Implies(str_eq(ctx, a, b), atom(c, a) == atom(c, b)))
+    return atom(x, y)
+
+
+def hash_of(ctx: Ctx, parts):
+    """hash(<tuple of strings>): an opaque function of the contents of the components"""
+    memo = getattr(ctx, "memo", None)
+    if memo is None:
+        memo = ctx.memo = {}
+    def key(s):
+        return ("c", s.conc) if s.conc is not None else (s.a.get_id(), z3.simplify(s.lo).get_id(), z3.simplify(s.hi).get_id())
+    k = ("hash",) + tuple(key(s) for s in parts)
+    if k in memo:
+        return memo[k]
+    h = fresh_int("hash")
+    apps = getattr(ctx, "hash_apps", None)
+    if apps is None:
+        apps = ctx.hash_apps = []
+    for parts2, h2 in apps:
+        if len(parts2) == len(parts):
+            ctx.add(z3.Implies(z3.And([str_eq(ctx, a, b) for a, b in zip(parts, parts2)]), h == h2))
+    apps.append((list(parts), h))
+    memo[k] = h
+    return h
